@@ -126,6 +126,14 @@ impl CaoLangTable {
             .filter_map(|k| self.map.get(k).map(|v| (k, v)))
     }
 
+    /// Every key and value the table stores, whether or not the key still finds its entry: a key
+    /// that is itself a table may have been mutated since it was inserted
+    pub(crate) fn stored_values(&self) -> impl Iterator<Item = &Value> + '_ {
+        self.keys
+            .iter()
+            .chain(self.map.iter().flat_map(|(k, v)| [k, v]))
+    }
+
     pub fn keys(&self) -> &[Value] {
         &self.keys
     }
